@@ -5,7 +5,8 @@ LEAN_MODULE = ["Urandom.Props.C14", "Urandom.Props.C14T", "Urandom.Props.C13R"]
 RULE = ("requests: Bernoulli::new(p).sample and Random::chance(p) for p in every class (+-0, subnormal, 1-ulp, 1, >1, +-inf, NaN payloads, negative, random, and p equal to / "
         "one ulp either side of the Float01 value the scripted words produce) x word pairs over all leading-zero classes; monotonicity checked on pairs p<q over the same words. "
         "extra: the probability clause exactly on the implementation - the measure of the set of word pairs giving true, by nested interval search with real calls, against p (tolerance p*2^-52 + 2^-64). "
-        "non-trivial = all; distinct = distinct request line")
+        "non-trivial = all; distinct = distinct request line"
+        " Since round 10: chance(p) as op inside ChaCha histories at every kind of buffer position (extremes judged for every generator stream; the rest by correspondence with the distribution model run on the block model's own draws).")
 ASSUMPTIONS = []
 
 
